@@ -277,12 +277,46 @@ def rule_call_apply_name(check):
         mem_arg = [i for i, a in enumerate(args) if "MemberExpr" in (hir.peel(a).get("ty") or "")]
         if vec_arg and mem_arg:
             cands.append((n, h, mem_arg[0], vec_arg[0]))
+        elif mem_arg and "Vec<" in (h.rec.get("ret") or "") and "Ident" in (h.rec.get("ret") or ""):
+            cands.append((n, h, mem_arg[0], None))
     key = R + "/call-or-apply-name"
     if len(cands) != 1:
         check.bad(R, key, hir.loc(g.rec), "cannot find the one helper that collects the member path of `F.call/apply` (%d candidates)" % len(cands))
         return
     n, h, mi, vi = cands[0]
-    vec_l = hir.local_of(hir.call_args(n)[vi])[0]
+    if vi is None:
+        # the helper returns the path: only its first element may be used
+        cur_ = n
+        chain_ = []
+        for _ in range(6):
+            par_ = g.parent(cur_)
+            while par_ is not None and par_.get("k") in ("DropTemps", "Use", "AddrOf"):
+                cur_, par_ = par_, g.parent(par_)
+            if par_ is not None and par_.get("k") == "MethodCall" and par_["recv"] is cur_:
+                chain_.append(par_["method"])
+                cur_ = par_
+                continue
+            if par_ is not None and par_.get("k") == "Index" and par_["x"] is cur_:
+                chain_.append("[%s]" % hir.lit_value(par_["i"]))
+                cur_ = par_
+                continue
+            break
+        core_ = [c_ for c_ in chain_ if c_ not in ("into_iter", "iter", "cloned", "copied", "clone", "as_slice")]
+        first_ok = core_[:1] in (["next"], ["first"], ["[0]"])
+        mo = pv.origins(g, hir.call_args(n)[mi])
+        whole = bool(mo) and all(r[0] == "param" and p_ == () for r, p_ in mo)
+        check.expect(first_ok and whole, R, key + "/first-element", hir.loc(n), "the method name is the first element of the path returned by %s(member)" % h.name, "the method name of `F.call/apply` is not the first element of the member path (%s)" % ".".join(chain_))
+        rets_ = [hir.local_of(r_) for r_ in return_exprs(h.body)]
+        if not rets_ or any(r_ is None for r_ in rets_) or len({r_[0] for r_ in rets_}) != 1:
+            check.bad(R, key, hir.loc(h.rec), "%s does not return one path vector" % h.name)
+            return
+        vloc_override = rets_[0][0]
+    else:
+        vloc_override = None
+    vec_l = hir.local_of(hir.call_args(n)[vi])[0] if vi is not None else None
+    if vi is None:
+        _contiguity(check, prog, pv, h, mi, vloc_override, R, key)
+        return
     b = g.bindings()[vec_l]
     fresh = b["origin"][0] == "let" and b["origin"][1] is not None and all(r[0] == "call" and ("Vec" in r[1]) for r, p_ in pv.origins(g, b["origin"][1])) and bool(pv.origins(g, b["origin"][1]))
     mo = pv.origins(g, hir.call_args(n)[mi])
@@ -291,13 +325,21 @@ def rule_call_apply_name(check):
     first_only = bool(idxs) and all(hir.lit_value(x["i"]) == 0 for x in idxs)
     other_use = [x for x in g.nodes() if hir.is_call(x) and x is not n and any((hir.local_of(a) or (None,))[0] == vec_l for a in hir.call_args(x))]
     check.expect(fresh and whole and first_only and not other_use, R, key + "/first-element", hir.loc(n), "the method name is element 0 of a fresh vector filled by %s(member)" % h.name, "the method name of `F.call/apply` is not element 0 of a fresh path vector (fresh=%s, whole member=%s, only [0] read=%s, other uses=%d)" % (fresh, whole, first_only, len(other_use)))
-    # inside the helper: a push of the current member's own property dominates every other push and every descent
-    prm = hir.pat_bindings(h.rec["params"][mi]["pat"])
     vprm = hir.pat_bindings(h.rec["params"][vi]["pat"])
-    if not prm or not vprm:
+    if not vprm:
         check.bad(R, key, hir.loc(h.rec), "unrecognised parameters of %s" % h.name)
         return
-    vloc = vprm[0]["local"]
+    _contiguity(check, prog, pv, h, mi, vprm[0]["local"], R, key)
+
+
+def _contiguity(check, prog, pv, h, mi, vloc, R, key):
+    """inside the path helper: a push of the current member's own property dominates every other push and
+    every step down the chain (recursive, `while let Some(m) = cur`, or cursor-variable form)"""
+    # inside the helper: a push of the current member's own property dominates every other push and every descent
+    prm = hir.pat_bindings(h.rec["params"][mi]["pat"])
+    if not prm:
+        check.bad(R, key, hir.loc(h.rec), "unrecognised parameters of %s" % h.name)
+        return
     loops = [x for x in h.nodes() if x.get("k") == "Loop"]
     pushes = [x for x in h.nodes() if hir.is_call(x) and (hir.callee_name(x) or x.get("method")) in ("push", "insert", "extend", "push_back") and (hir.local_of(hir.call_args(x)[0]) or (None,))[0] == vloc]
     descents = [x for x in h.nodes() if hir.is_call(x) and prog.resolve_local(x) is h]
@@ -343,6 +385,41 @@ def rule_call_apply_name(check):
                     why.append("the step down the chain at %s is taken without pushing this member's property first (a computed or private key is skipped)" % hir.loc(a))
         check.expect(ok, R, key + "/contiguous", hir.loc(h.rec), "%s (iterative) pushes member.prop before any other element and before stepping to member.obj" % h.name, "%s can report a name that is not the direct property of the called function: %s" % (h.name, "; ".join(why)))
         return
+    if len(loops) == 1 and not descents and not hir.while_let_shape(loops[0]) and all(any(y is loops[0] for y in h.ancestors(x)) for x in pushes):
+        # cursor form: `let mut current = member; while <current.prop is an identifier> { push(prop); current = <current.obj ..> | break }`
+        cursors = {}
+        for a in h.nodes():
+            if a.get("k") == "Assign" and hir.local_of(a["l"]) and any(y is loops[0] for y in h.ancestors(a)):
+                cursors.setdefault(hir.local_of(a["l"])[0], []).append(a)
+        cursors = {v_: as_ for v_, as_ in cursors.items() if v_ != vloc}
+        if len(cursors) == 1:
+            cur = list(cursors)[0]
+            b = h.bindings().get(cur)
+            init = b["origin"][1] if b and b["origin"][0] == "let" else None
+            io = pv.origins(h, init) if init is not None else set()
+            starts = bool(io) and all(r[0] == "param" and r[2] == mi and p_ == () for r, p_ in io)
+            own = [x for x in pushes if (hir.root_path(h, hir.call_args(x)[1], stop=(cur,)) or (None, []))[0] == cur and (hir.root_path(h, hir.call_args(x)[1], stop=(cur,)) or (None, [None]))[1][:1] == ["prop"] and (x.get("method") or hir.callee_name(x)) == "push"]
+            why = []
+            ok = starts and len(own) == 1
+            if not starts:
+                why.append("the walk does not start at the member itself")
+            if len(own) != 1:
+                why.append("%d pushes of the current member's own property" % len(own))
+            if ok:
+                for x in pushes:
+                    if x is not own[0] and not _dominated_by(h, own[0], x):
+                        ok = False
+                        why.append("a push at %s is not preceded by the push of the member's own property" % hir.loc(x))
+                for a in cursors[cur]:
+                    rp = hir.root_path(h, a["r"], stop=(cur,))
+                    if not (rp and rp[0] == cur and rp[1][:1] == ["obj"]):
+                        ok = False
+                        why.append("the step at %s does not go to member.obj" % hir.loc(a))
+                    if not _dominated_by(h, own[0], a):
+                        ok = False
+                        why.append("the step down the chain at %s is taken without pushing this member's property first (a computed or private key is skipped)" % hir.loc(a))
+            check.expect(ok, R, key + "/contiguous", hir.loc(h.rec), "%s (cursor loop) pushes member.prop before any other element and before stepping to member.obj" % h.name, "%s can report a name that is not the direct property of the called function: %s" % (h.name, "; ".join(why)))
+            return
     if loops:
         check.bad(R, key, hir.loc(loops[0]), "%s walks the member chain with a loop; the rule only follows the recursive form and cannot show that a name is pushed before every step down the chain" % h.name)
         return
